@@ -825,6 +825,14 @@ public:
       }
     }
 
+    // A drain that timed out restores _accepting (so that it can be retried); stop()
+    // proceeds regardless, so refuse new timers from here on: a timer accepted
+    // after the loop thread has exited would never fire.
+    {
+      std::lock_guard<std::mutex> lock(_mutex);
+      _accepting.store(false, std::memory_order_release);
+    }
+
     // Now transition to Stopped
     bool expected = true;
     if (_running.compare_exchange_strong(expected, false, std::memory_order_acq_rel))
@@ -838,14 +846,14 @@ public:
       }
 
       cleanup();
-      _lifecycleState.store(LifecycleState::Stopped, std::memory_order_release);
+      markStopped();
       loggerSnapshot()->info("Timer service stopped");
 
       return LifecycleResult(true, LifecycleState::Stopped, "Timer service stopped");
     }
 
     // Already stopped
-    _lifecycleState.store(LifecycleState::Stopped, std::memory_order_release);
+    markStopped();
     return LifecycleResult(true, LifecycleState::Stopped, "Already stopped");
   }
 
@@ -987,6 +995,17 @@ private:
       // only applies to runtime errors, not construction failures.
       throw;
     }
+  }
+
+  /// Publish Stopped together with "not accepting" under _mutex. A drain() on
+  /// another thread that times out restores _accepting only while the state
+  /// is still Draining (CAS under the same mutex), so once stop() has
+  /// returned the service stays closed.
+  void markStopped()
+  {
+    std::lock_guard<std::mutex> lock(_mutex);
+    _accepting.store(false, std::memory_order_release);
+    _lifecycleState.store(iora::common::LifecycleState::Stopped, std::memory_order_release);
   }
 
   void configureThread()
